@@ -663,6 +663,13 @@ fn one(out: &mut CaseRec, real: &mut Real, e: &E, style: u32, rng: &mut gv::rng:
                     "unlinked-row-tail:unify_rows".to_string()
                 } else if less_general {
                     format!("non-principal:{}", tag)
+                } else if more_general && poly_field_literal(e) {
+                    // same root cause as `higher-rank:forall-field` (a record/tuple field holding a
+                    // generalisable expression gets a first-class `forall` type), seen from the other
+                    // side: the foralls are instantiated per use of the record, so the reported type is
+                    // MORE general than the ML principal type and no `forall` is left to be seen
+                    known_poly_field = true;
+                    "too-general:poly-record-field".to_string()
                 } else if more_general {
                     format!("too-general:{}", tag)
                 } else {
@@ -815,6 +822,32 @@ fn one(out: &mut CaseRec, real: &mut Real, e: &E, style: u32, rng: &mut gv::rng:
         return;
     }
     out.case(&format!("infer {}", sexp(e)), &payload(&v));
+}
+
+/// Does the program contain a record or tuple literal one of whose components is a generalisable
+/// polymorphic expression (`[]`, a lambda, or a `let`/`if` ending in one)? gluon gives such a field a
+/// first-class `forall` type (typecheck.rs:989-), which plain HM does not.
+fn poly_field_literal(e: &E) -> bool {
+    fn polyish(e: &E) -> bool {
+        match e {
+            E::Arr(xs) => xs.is_empty(),
+            E::Lam(..) => true,
+            E::Let(_, a, b) => polyish(a) || polyish(b),
+            E::If(_, t, f) => polyish(t) || polyish(f),
+            _ => false,
+        }
+    }
+    match e {
+        E::Rec(fs) => fs.iter().any(|(_, f)| polyish(f) || poly_field_literal(f)),
+        E::Tup(xs) => xs.iter().any(|f| polyish(f) || poly_field_literal(f)),
+        E::Arr(xs) => xs.iter().any(poly_field_literal),
+        E::Lam(_, b) => poly_field_literal(b),
+        E::App(a, b) | E::Lt(a, b) => poly_field_literal(a) || poly_field_literal(b),
+        E::Let(_, a, b) => poly_field_literal(a) || poly_field_literal(b),
+        E::If(c, t, f) => poly_field_literal(c) || poly_field_literal(t) || poly_field_literal(f),
+        E::Proj(a, _) => poly_field_literal(a),
+        E::Var(_) | E::Int(_) | E::Str(_) | E::Con(_) => false,
+    }
 }
 
 fn change_kind(a: &Verdict, b: &Verdict) -> &'static str {
